@@ -261,6 +261,8 @@ def project(trace, scope):
     """keep only the fields a property's theorems speak about"""
     if scope == 'full':
         return trace
+    if scope == 'record':      # everything the election record holds: the harness's ballot snapshots are left out
+        return "\n".join(l for l in trace.split("\n") if not (l == 'B' or l.startswith('B ')))
     out = []
     for l in trace.split("\n"):
         k = l[:2]
